@@ -4,81 +4,425 @@ import (
 	"fmt"
 	"go/ast"
 	"go/token"
+	"sort"
 	"strings"
 )
 
-// Coalescers: the decisive code shapes of serf/coalesce_member.go, serf/coalesce_user.go and
-// serf/coalesce.go, regenerated on every run.
+// Coalescers: the decisive code of serf/coalesce_member.go, serf/coalesce_user.go and
+// serf/coalesce.go, regenerated on every run — by MEANING where the code carries logic, by
+// canonical text elsewhere.
 //
-//   - the two guards that carry the logic are translated into a small boolean IR and EVALUATED on
-//     the Lean side (the member coalescer's suppression condition; the user coalescer's
-//     "no entry or strictly newer" and "same age" conditions);
-//   - the user coalescer's Coalesce is translated into a decision program (guard, action,
-//     returns) that the Lean side interprets on the model state and proves equal to the model;
-//   - everything else (what Coalesce stores, the statements of the two Flush loops, the Handle
-//     bodies, the select cases of coalesceLoop and its INGEST / FLUSH blocks) is emitted as
-//     normalised statement text and compared with the text the hand-written models mirror.
+// Canonical terms.  Expressions are printed with the receiver as `r`, the parameters as
+// `p0, p1, …`, and every local that merely NAMES another expression replaced by that expression
+// (`user := e.(UserEvent)` makes `user.Name` print as `p0.(UserEvent).Name`; `latest, ok :=
+// c.events[k]` makes `ok` print as `r.events[k]#ok`; a range value `m` over `xs` and `xs[i]` with
+// `i` the range key both print as `xs[*]`, a range key over a map as `#k(xs)`).  Other locals are
+// `v0, v1, …` in order of definition.  So renaming a variable, inlining or introducing an alias,
+// or switching between the two range forms changes nothing below.
 //
-// Any shape outside this is an error (no file is written; the check reports the broken obligation).
+// Programs.  `Handle` (both coalescers), `userEventCoalescer.Coalesce` and the body of the loop in
+// `memberEventCoalescer.Flush` are translated into a small program IR (if / else, switch with case
+// lists, early return or continue, boolean results, named primitive actions) that the Lean side
+// INTERPRETS and proves equal to the hand-written model for all inputs — so a flipped condition
+// with swapped branches, an early return turned into if/else, merged case lists and the like
+// leave the obligations intact, while any change of behaviour breaks them.
+//
+// The rest (what the member `Coalesce` loop stores, the statements around the loops of the two
+// `Flush`, the select cases and INGEST / FLUSH blocks of `coalesceLoop`) is emitted as canonical
+// statement text.  A shape outside all this is an error: no file is written.
 
-func clNorm(n ast.Node) string { return strings.Join(strings.Fields(exprString(n)), " ") }
+type clEnv struct {
+	alias map[string]string
+	nloc  *int
+}
 
-func clTerm(e ast.Expr) (string, error) {
+func newClEnv(fd *ast.FuncDecl) *clEnv {
+	n := 0
+	en := &clEnv{alias: map[string]string{}, nloc: &n}
+	if r := recvName(fd); r != "" {
+		en.alias[r] = "r"
+	}
+	k := 0
+	if fd.Type.Params != nil {
+		for _, f := range fd.Type.Params.List {
+			for _, nm := range f.Names {
+				en.alias[nm.Name] = fmt.Sprintf("p%d", k)
+				k++
+			}
+		}
+	}
+	return en
+}
+
+func (en *clEnv) fork() *clEnv {
+	m := map[string]string{}
+	for k, v := range en.alias {
+		m[k] = v
+	}
+	return &clEnv{alias: m, nloc: en.nloc}
+}
+
+func (en *clEnv) local(name string) string {
+	if name == "_" {
+		return "_"
+	}
+	v := fmt.Sprintf("v%d", *en.nloc)
+	*en.nloc++
+	en.alias[name] = v
+	return v
+}
+
+func clRaw(n ast.Node) string { return strings.Join(strings.Fields(exprString(n)), " ") }
+
+func (en *clEnv) term(e ast.Expr) (string, error) {
 	switch v := e.(type) {
 	case *ast.Ident:
+		if a, ok := en.alias[v.Name]; ok {
+			return a, nil
+		}
 		return v.Name, nil
+	case *ast.BasicLit:
+		return v.Value, nil
+	case *ast.ParenExpr:
+		x, err := en.term(v.X)
+		return "(" + x + ")", err
 	case *ast.SelectorExpr:
-		x, err := clTerm(v.X)
+		x, err := en.term(v.X)
+		return x + "." + v.Sel.Name, err
+	case *ast.StarExpr:
+		x, err := en.term(v.X)
+		return "*" + x, err
+	case *ast.TypeAssertExpr:
+		x, err := en.term(v.X)
+		return x + ".(" + clRaw(v.Type) + ")", err
+	case *ast.IndexExpr:
+		x, err := en.term(v.X)
 		if err != nil {
 			return "", err
 		}
-		return x + "." + v.Sel.Name, nil
+		i, err := en.term(v.Index)
+		if err != nil {
+			return "", err
+		}
+		if i == "#k("+x+")" {
+			return x + "[*]", nil
+		}
+		return x + "[" + i + "]", nil
+	case *ast.UnaryExpr:
+		x, err := en.term(v.X)
+		return v.Op.String() + x, err
+	case *ast.SliceExpr:
+		x, err := en.term(v.X)
+		if err != nil {
+			return "", err
+		}
+		part := func(e ast.Expr) string {
+			if e == nil {
+				return ""
+			}
+			t, err2 := en.term(e)
+			if err2 != nil {
+				err = err2
+			}
+			return t
+		}
+		out := x + "[" + part(v.Low) + ":" + part(v.High)
+		if v.Slice3 {
+			out += ":" + part(v.Max)
+		}
+		return out + "]", err
+	case *ast.BinaryExpr:
+		x, err := en.term(v.X)
+		if err != nil {
+			return "", err
+		}
+		y, err := en.term(v.Y)
+		return x + " " + v.Op.String() + " " + y, err
 	case *ast.CallExpr:
-		if len(v.Args) == 0 {
-			f, err := clTerm(v.Fun)
-			if err != nil {
-				return "", err
-			}
-			return f + "()", nil
+		f, err := en.term(v.Fun)
+		if err != nil {
+			return "", err
 		}
-		if len(v.Args) == 1 {
-			f, err := clTerm(v.Fun)
+		var as []string
+		for _, a := range v.Args {
+			switch a.(type) {
+			case *ast.MapType, *ast.ArrayType, *ast.ChanType:
+				as = append(as, clRaw(a))
+				continue
+			}
+			t, err := en.term(a)
 			if err != nil {
 				return "", err
 			}
-			a, err := clTerm(v.Args[0])
-			if err != nil {
-				return "", err
-			}
-			return f + "(" + a + ")", nil
+			as = append(as, t)
 		}
-	case *ast.ParenExpr:
-		return clTerm(v.X)
+		ell := ""
+		if v.Ellipsis.IsValid() {
+			ell = "..."
+		}
+		return f + "(" + strings.Join(as, ", ") + ell + ")", nil
+	case *ast.CompositeLit:
+		var es []string
+		for _, el := range v.Elts {
+			if kv, ok := el.(*ast.KeyValueExpr); ok {
+				t, err := en.term(kv.Value)
+				if err != nil {
+					return "", err
+				}
+				es = append(es, clRaw(kv.Key)+": "+t)
+				continue
+			}
+			t, err := en.term(el)
+			if err != nil {
+				return "", err
+			}
+			es = append(es, t)
+		}
+		return clRaw(v.Type) + "{" + strings.Join(es, ", ") + "}", nil
+	case *ast.MapType, *ast.ArrayType, *ast.ChanType:
+		return clRaw(v), nil
 	}
-	return "", fmt.Errorf("unsupported term %s", clNorm(e))
+	return "", fmt.Errorf("unsupported expression %s", clRaw(e))
 }
 
-// clCond translates a Go boolean expression into the Lean Cond IR.
-func clCond(e ast.Expr) (string, error) {
+// pure: the expression only NAMES something reachable from the receiver, a parameter or a local
+// (a constant such as `false` is a value, not a name: `x := false` makes a variable).
+func (en *clEnv) pure(e ast.Expr) bool {
 	switch v := e.(type) {
+	case *ast.Ident:
+		_, ok := en.alias[v.Name]
+		return ok
+	case *ast.SelectorExpr:
+		return en.pure(v.X)
+	case *ast.IndexExpr:
+		return en.pure(v.X) && en.pure(v.Index)
+	case *ast.TypeAssertExpr:
+		return en.pure(v.X)
 	case *ast.ParenExpr:
-		return clCond(v.X)
-	case *ast.UnaryExpr:
-		if v.Op == token.NOT {
-			c, err := clCond(v.X)
+		return en.pure(v.X)
+	}
+	return false
+}
+
+// define processes `a := x`, `a, ok := x[i]`, `a, ok := x.(T)`: an alias when the right-hand side
+// only names something, otherwise fresh locals. Returns the canonical statement text.
+func (en *clEnv) define(s *ast.AssignStmt) (string, bool, error) {
+	if s.Tok != token.DEFINE {
+		return "", false, nil
+	}
+	var rhs []string
+	for _, r := range s.Rhs {
+		t, err := en.term(r)
+		if err != nil {
+			return "", false, err
+		}
+		rhs = append(rhs, t)
+	}
+	names := func() []string {
+		var out []string
+		for _, l := range s.Lhs {
+			id, ok := l.(*ast.Ident)
+			if !ok {
+				out = append(out, "?")
+				continue
+			}
+			out = append(out, id.Name)
+		}
+		return out
+	}()
+	if len(s.Rhs) == 1 && en.pure(s.Rhs[0]) {
+		switch len(names) {
+		case 1:
+			en.alias[names[0]] = rhs[0]
+			return "", true, nil
+		case 2:
+			if names[0] != "_" {
+				en.alias[names[0]] = rhs[0]
+			}
+			if names[1] != "_" {
+				en.alias[names[1]] = rhs[0] + "#ok"
+			}
+			return "", true, nil
+		}
+	}
+	var ls []string
+	for _, n := range names {
+		ls = append(ls, en.local(n))
+	}
+	return strings.Join(ls, ", ") + " := " + strings.Join(rhs, ", "), false, nil
+}
+
+// stmt prints a statement canonically (for the facts that stay textual).
+func (en *clEnv) stmt(s ast.Stmt) (string, error) {
+	switch v := s.(type) {
+	case *ast.ExprStmt:
+		return en.term(v.X)
+	case *ast.SendStmt:
+		c, err := en.term(v.Chan)
+		if err != nil {
+			return "", err
+		}
+		x, err := en.term(v.Value)
+		return c + " <- " + x, err
+	case *ast.AssignStmt:
+		if v.Tok == token.DEFINE {
+			t, aliased, err := en.define(v)
+			if aliased {
+				return "", err
+			}
+			return t, err
+		}
+		var ls, rs []string
+		for _, l := range v.Lhs {
+			t, err := en.term(l)
 			if err != nil {
 				return "", err
 			}
-			return "(.not " + c + ")", nil
+			ls = append(ls, t)
+		}
+		for _, r := range v.Rhs {
+			t, err := en.term(r)
+			if err != nil {
+				return "", err
+			}
+			rs = append(rs, t)
+		}
+		return strings.Join(ls, ", ") + " " + v.Tok.String() + " " + strings.Join(rs, ", "), nil
+	case *ast.ReturnStmt:
+		var rs []string
+		for _, r := range v.Results {
+			t, err := en.term(r)
+			if err != nil {
+				return "", err
+			}
+			rs = append(rs, t)
+		}
+		if len(rs) == 0 {
+			return "return", nil
+		}
+		return "return " + strings.Join(rs, ", "), nil
+	case *ast.BranchStmt:
+		if v.Label != nil {
+			return v.Tok.String() + " " + v.Label.Name, nil
+		}
+		return v.Tok.String(), nil
+	case *ast.DeclStmt:
+		gd, ok := v.Decl.(*ast.GenDecl)
+		if !ok || gd.Tok != token.VAR || len(gd.Specs) != 1 {
+			return "", fmt.Errorf("unsupported declaration %s", clRaw(s))
+		}
+		vs := gd.Specs[0].(*ast.ValueSpec)
+		if len(vs.Values) != 0 || vs.Type == nil {
+			return "", fmt.Errorf("unsupported declaration %s", clRaw(s))
+		}
+		var ns []string
+		for _, n := range vs.Names {
+			ns = append(ns, en.local(n.Name))
+		}
+		return "var " + strings.Join(ns, ", ") + " " + clRaw(vs.Type), nil
+	case *ast.IfStmt:
+		if v.Init != nil {
+			return "", fmt.Errorf("unsupported if with init %s", clRaw(s))
+		}
+		c, err := en.term(v.Cond)
+		if err != nil {
+			return "", err
+		}
+		b, err := en.block(v.Body.List)
+		if err != nil {
+			return "", err
+		}
+		out := "if " + c + " { " + b + " }"
+		if v.Else != nil {
+			eb, ok := v.Else.(*ast.BlockStmt)
+			if !ok {
+				return "", fmt.Errorf("unsupported else-if %s", clRaw(s))
+			}
+			e, err := en.block(eb.List)
+			if err != nil {
+				return "", err
+			}
+			out += " else { " + e + " }"
+		}
+		return out, nil
+	case *ast.RangeStmt:
+		h, err := en.rangeHeader(v)
+		if err != nil {
+			return "", err
+		}
+		b, err := en.block(v.Body.List)
+		if err != nil {
+			return "", err
+		}
+		return h + " { " + b + " }", nil
+	}
+	return "", fmt.Errorf("unsupported statement %s", clRaw(s))
+}
+
+func (en *clEnv) block(l []ast.Stmt) (string, error) {
+	var out []string
+	for _, s := range l {
+		t, err := en.stmt(s)
+		if err != nil {
+			return "", err
+		}
+		if t != "" {
+			out = append(out, t)
+		}
+	}
+	return strings.Join(out, "; "), nil
+}
+
+func (en *clEnv) stmts(l []ast.Stmt) ([]string, error) {
+	var out []string
+	for _, s := range l {
+		t, err := en.stmt(s)
+		if err != nil {
+			return nil, err
+		}
+		if t != "" {
+			out = append(out, t)
+		}
+	}
+	return out, nil
+}
+
+// rangeHeader binds the range variables (value ↦ xs[*], key ↦ #k(xs)) and returns `range xs`.
+func (en *clEnv) rangeHeader(r *ast.RangeStmt) (string, error) {
+	x, err := en.term(r.X)
+	if err != nil {
+		return "", err
+	}
+	if r.Tok != token.DEFINE && (r.Key != nil || r.Value != nil) {
+		return "", fmt.Errorf("range assigning to existing variables")
+	}
+	if id, ok := r.Key.(*ast.Ident); ok && id.Name != "_" {
+		en.alias[id.Name] = "#k(" + x + ")"
+	}
+	if id, ok := r.Value.(*ast.Ident); ok && id.Name != "_" {
+		en.alias[id.Name] = x + "[*]"
+	}
+	return "range " + x, nil
+}
+
+// cond translates a boolean expression into the Lean Cond IR over canonical terms.
+func (en *clEnv) cond(e ast.Expr) (string, error) {
+	switch v := e.(type) {
+	case *ast.ParenExpr:
+		return en.cond(v.X)
+	case *ast.UnaryExpr:
+		if v.Op == token.NOT {
+			c, err := en.cond(v.X)
+			return "(.not " + c + ")", err
 		}
 	case *ast.BinaryExpr:
 		switch v.Op {
 		case token.LAND, token.LOR:
-			a, err := clCond(v.X)
+			a, err := en.cond(v.X)
 			if err != nil {
 				return "", err
 			}
-			b, err := clCond(v.Y)
+			b, err := en.cond(v.Y)
 			if err != nil {
 				return "", err
 			}
@@ -88,24 +432,180 @@ func clCond(e ast.Expr) (string, error) {
 			}
 			return fmt.Sprintf("(%s %s %s)", op, a, b), nil
 		case token.EQL, token.NEQ, token.LSS, token.LEQ, token.GTR, token.GEQ:
-			a, err := clTerm(v.X)
+			a, err := en.term(v.X)
 			if err != nil {
 				return "", err
 			}
-			b, err := clTerm(v.Y)
+			b, err := en.term(v.Y)
 			if err != nil {
 				return "", err
 			}
 			return fmt.Sprintf("(.cmp %q %q %q)", v.Op.String(), a, b), nil
 		}
-	case *ast.Ident, *ast.SelectorExpr, *ast.CallExpr:
-		t, err := clTerm(v)
+	case *ast.Ident, *ast.SelectorExpr, *ast.CallExpr, *ast.IndexExpr:
+		t, err := en.term(v)
+		return fmt.Sprintf("(.atom %q)", t), err
+	}
+	return "", fmt.Errorf("unsupported condition %s", clRaw(e))
+}
+
+// recognizer: does a primitive action start at l[0]? Returns its name and how many statements it spans.
+type clRecognizer func(en *clEnv, l []ast.Stmt) (string, int)
+
+// prog translates a statement list (what follows it being nothing: falling off the end) into the Prog IR.
+func (en *clEnv) prog(l []ast.Stmt, rec clRecognizer) (string, error) {
+	if len(l) == 0 {
+		return ".done", nil
+	}
+	s, rest := l[0], l[1:]
+	if rec != nil {
+		switch s.(type) {
+		case *ast.ReturnStmt, *ast.BranchStmt:
+		default:
+			if name, n := rec(en.fork(), l); n > 0 {
+				k, err := en.prog(l[n:], rec)
+				return fmt.Sprintf("(.act %q %s)", name, k), err
+			}
+		}
+	}
+	switch v := s.(type) {
+	case *ast.ReturnStmt:
+		switch len(v.Results) {
+		case 0:
+			return ".done", nil
+		case 1:
+			c, err := en.cond(v.Results[0])
+			return "(.ret " + c + ")", err
+		}
+		return "", fmt.Errorf("return with several results")
+	case *ast.BranchStmt:
+		if v.Tok == token.CONTINUE && v.Label == nil {
+			return ".done", nil
+		}
+		return "", fmt.Errorf("unsupported branch %s", clRaw(s))
+	case *ast.BlockStmt:
+		return en.prog(append(append([]ast.Stmt{}, v.List...), rest...), rec)
+	case *ast.IfStmt:
+		e0 := en
+		if v.Init != nil {
+			as, ok := v.Init.(*ast.AssignStmt)
+			if !ok {
+				return "", fmt.Errorf("unsupported if-init %s", clRaw(v.Init))
+			}
+			e0 = en.fork()
+			if _, aliased, err := e0.define(as); err != nil || !aliased {
+				return "", fmt.Errorf("unsupported if-init %s", clRaw(v.Init))
+			}
+		}
+		c, err := e0.cond(v.Cond)
 		if err != nil {
 			return "", err
 		}
-		return fmt.Sprintf("(.atom %q)", t), nil
+		t, err := e0.fork().prog(append(append([]ast.Stmt{}, v.Body.List...), rest...), rec)
+		if err != nil {
+			return "", err
+		}
+		var els []ast.Stmt
+		if v.Else != nil {
+			els = []ast.Stmt{v.Else}
+		}
+		e, err := e0.fork().prog(append(els, rest...), rec)
+		if err != nil {
+			return "", err
+		}
+		return fmt.Sprintf("(.ite %s %s %s)", c, t, e), nil
+	case *ast.SwitchStmt:
+		if v.Init != nil {
+			return "", fmt.Errorf("unsupported switch %s", clRaw(s))
+		}
+		tag := ""
+		if v.Tag != nil {
+			t, err := en.term(v.Tag)
+			if err != nil {
+				return "", err
+			}
+			tag = t
+		}
+		var def []ast.Stmt
+		type arm struct {
+			cond string
+			body []ast.Stmt
+		}
+		var arms []arm
+		for _, c := range v.Body.List {
+			cc := c.(*ast.CaseClause)
+			for _, b := range cc.Body {
+				if br, ok := b.(*ast.BranchStmt); ok && br.Tok == token.FALLTHROUGH {
+					return "", fmt.Errorf("fallthrough")
+				}
+			}
+			if cc.List == nil {
+				def = cc.Body
+				continue
+			}
+			var cs []string
+			for _, x := range cc.List {
+				if v.Tag == nil { // `switch { case cond: … }`
+					c, err := en.cond(x)
+					if err != nil {
+						return "", err
+					}
+					cs = append(cs, c)
+					continue
+				}
+				t, err := en.term(x)
+				if err != nil {
+					return "", err
+				}
+				cs = append(cs, fmt.Sprintf("(.cmp \"==\" %q %q)", tag, t))
+			}
+			cnd := cs[len(cs)-1]
+			for i := len(cs) - 2; i >= 0; i-- {
+				cnd = fmt.Sprintf("(.or %s %s)", cs[i], cnd)
+			}
+			arms = append(arms, arm{cnd, cc.Body})
+		}
+		out, err := en.fork().prog(append(append([]ast.Stmt{}, def...), rest...), rec)
+		if err != nil {
+			return "", err
+		}
+		for i := len(arms) - 1; i >= 0; i-- {
+			t, err := en.fork().prog(append(append([]ast.Stmt{}, arms[i].body...), rest...), rec)
+			if err != nil {
+				return "", err
+			}
+			out = fmt.Sprintf("(.ite %s %s %s)", arms[i].cond, t, out)
+		}
+		return out, nil
+	case *ast.AssignStmt:
+		if v.Tok == token.DEFINE {
+			if rec != nil {
+				if name, n := rec(en.fork(), l); n > 0 {
+					k, err := en.prog(l[n:], rec)
+					return fmt.Sprintf("(.act %q %s)", name, k), err
+				}
+			}
+			txt, aliased, err := en.define(v)
+			if err != nil {
+				return "", err
+			}
+			if aliased {
+				return en.prog(rest, rec)
+			}
+			return fmt.Sprintf("(.unknown %q)", txt), nil
+		}
 	}
-	return "", fmt.Errorf("unsupported condition %s", clNorm(e))
+	if rec != nil {
+		if name, n := rec(en.fork(), l); n > 0 {
+			k, err := en.prog(l[n:], rec)
+			return fmt.Sprintf("(.act %q %s)", name, k), err
+		}
+	}
+	txt, err := en.fork().stmt(s)
+	if err != nil {
+		txt = clRaw(s)
+	}
+	return fmt.Sprintf("(.unknown %q)", txt), nil
 }
 
 func clStrList(l []string) string {
@@ -116,25 +616,25 @@ func clStrList(l []string) string {
 	return "[" + strings.Join(q, ", ") + "]"
 }
 
-func clStmts(l []ast.Stmt) []string {
-	var out []string
-	for _, s := range l {
-		out = append(out, clNorm(s))
+func clLegend(en *clEnv) string {
+	var ks []string
+	for k := range en.alias {
+		ks = append(ks, k)
 	}
-	return out
+	sort.Strings(ks)
+	var out []string
+	for _, k := range ks {
+		out = append(out, k+" = "+en.alias[k])
+	}
+	return strings.Join(out, "; ")
 }
 
-func clIsContinueBlock(b *ast.BlockStmt) bool {
-	if len(b.List) != 1 {
-		return false
-	}
-	br, ok := b.List[0].(*ast.BranchStmt)
-	return ok && br.Tok == token.CONTINUE && br.Label == nil
-}
+// ---------------------------------------------------------------------------------------------
 
 func genCoalescers(repo string) (string, error) {
 	var b strings.Builder
 	b.WriteString("-- GENERATED by /verif/extract from /repo/serf/{coalesce_member,coalesce_user,coalesce}.go — do not edit.\n")
+	b.WriteString("-- canonical terms: r = receiver, p0… = parameters, v0… = locals; aliases are replaced by what they name.\n")
 	b.WriteString("import SerfModel.Model.CoalesceShapes\nnamespace SerfModel.Gen.Coalescers\nopen SerfModel.CoalesceShapes\n\n")
 
 	// ---------------------------------------------------------------- coalesce_member.go
@@ -148,110 +648,115 @@ func genCoalescers(repo string) (string, error) {
 	if mh == nil || mc == nil || mfl == nil {
 		return "", fmt.Errorf("memberEventCoalescer: Handle/Coalesce/Flush not found")
 	}
-	// Handle: one switch on e.EventType(); cases returning true list the handled kinds
-	if len(mh.Body.List) != 1 {
-		return "", fmt.Errorf("member Handle: expected a single switch")
+	p, err := newClEnv(mh).prog(mh.Body.List, nil)
+	if err != nil {
+		return "", fmt.Errorf("member Handle: %v", err)
 	}
-	sw, ok := mh.Body.List[0].(*ast.SwitchStmt)
-	if !ok || sw.Tag == nil || !strings.HasSuffix(clNorm(sw.Tag), ".EventType()") {
-		return "", fmt.Errorf("member Handle: expected switch e.EventType()")
-	}
-	var handled []string
-	defaultFalse := false
-	for _, c := range sw.Body.List {
-		cc := c.(*ast.CaseClause)
-		if len(cc.Body) != 1 {
-			return "", fmt.Errorf("member Handle: case body shape")
-		}
-		ret := clNorm(cc.Body[0])
-		if cc.List == nil {
-			defaultFalse = ret == "return false"
-			continue
-		}
-		if ret != "return true" {
-			return "", fmt.Errorf("member Handle: case does not return true: %s", ret)
-		}
-		for _, x := range cc.List {
-			handled = append(handled, clNorm(x))
-		}
-	}
-	fmt.Fprintf(&b, "/-- kinds for which `memberEventCoalescer.Handle` returns true (default: %v) -/\n", !defaultFalse)
-	fmt.Fprintf(&b, "def memberHandled : List String := %s\ndef memberHandleDefaultFalse : Bool := %v\n\n", clStrList(handled), defaultFalse)
-	// Coalesce: statements, and the body of the loop over e.Members
-	fmt.Fprintf(&b, "def memberCoalesceStmts : List String := %s\n", clStrList(func() []string {
-		var out []string
+	fmt.Fprintf(&b, "/-- `memberEventCoalescer.Handle` as a program -/\ndef memberHandleProg : Prog := %s\n\n", p)
+
+	// Coalesce: aliases, then exactly one loop; its body as a program with the action "store"
+	{
+		en := newClEnv(mc)
+		var loop *ast.RangeStmt
 		for _, s := range mc.Body.List {
-			if r, ok := s.(*ast.RangeStmt); ok {
-				out = append(out, "for "+clNorm(r.Key)+", "+clNorm(r.Value)+" := range "+clNorm(r.X))
+			if r, ok := s.(*ast.RangeStmt); ok && loop == nil {
+				loop = r
 				continue
 			}
-			out = append(out, clNorm(s))
-		}
-		return out
-	}()))
-	var mrange *ast.RangeStmt
-	for _, s := range mc.Body.List {
-		if r, ok := s.(*ast.RangeStmt); ok {
-			if mrange != nil {
-				return "", fmt.Errorf("member Coalesce: two loops")
-			}
-			mrange = r
-		}
-	}
-	if mrange == nil {
-		return "", fmt.Errorf("member Coalesce: no loop over the members")
-	}
-	fmt.Fprintf(&b, "/-- body of the loop over `e.Members` in `Coalesce` -/\ndef memberCoalesceLoopBody : List String := %s\n\n", clStrList(clStmts(mrange.Body.List)))
-	// Flush: the loop over latestEvents
-	var frange *ast.RangeStmt
-	var flushTop []string
-	for _, s := range mfl.Body.List {
-		if r, ok := s.(*ast.RangeStmt); ok {
-			hdr := "for " + clNorm(r.Key)
-			if r.Value != nil {
-				hdr += ", " + clNorm(r.Value)
-			}
-			hdr += " := range " + clNorm(r.X)
-			if strings.HasSuffix(clNorm(r.X), ".latestEvents") {
-				if frange != nil {
-					return "", fmt.Errorf("member Flush: two loops over latestEvents")
+			if as, ok := s.(*ast.AssignStmt); ok && loop == nil {
+				if _, aliased, err := en.define(as); err == nil && aliased {
+					continue
 				}
-				frange = r
-				flushTop = append(flushTop, hdr)
-			} else {
-				flushTop = append(flushTop, hdr+" { "+strings.Join(clStmts(r.Body.List), "; ")+" }")
 			}
-			continue
+			return "", fmt.Errorf("member Coalesce: unexpected statement %s", clRaw(s))
 		}
-		flushTop = append(flushTop, clNorm(s))
-	}
-	if frange == nil {
-		return "", fmt.Errorf("member Flush: no loop over latestEvents")
-	}
-	fmt.Fprintf(&b, "def memberFlushStmts : List String := %s\n", clStrList(flushTop))
-	// inside the loop: the guard `if <cond> { continue }` is translated, the rest is text
-	var guard *ast.IfStmt
-	var body []string
-	for _, s := range frange.Body.List {
-		if is, ok := s.(*ast.IfStmt); ok && is.Init == nil && is.Else == nil && clIsContinueBlock(is.Body) {
-			if guard != nil {
-				return "", fmt.Errorf("member Flush: two continue guards")
+		if loop == nil {
+			return "", fmt.Errorf("member Coalesce: no loop")
+		}
+		hdr, err := en.rangeHeader(loop)
+		if err != nil {
+			return "", err
+		}
+		rec := func(e *clEnv, l []ast.Stmt) (string, int) {
+			if t, err := e.stmt(l[0]); err == nil &&
+				t == "r.latestEvents[p0.(MemberEvent).Members[*].Name] = coalesceEvent{Type: p0.(MemberEvent).Type, Member: &p0.(MemberEvent).Members[*]}" {
+				return "store", 1
 			}
-			guard = is
-			body = append(body, "if SUPPRESS { continue }")
-			continue
+			return "", 0
 		}
-		body = append(body, clNorm(s))
+		body, err := en.prog(loop.Body.List, rec)
+		if err != nil {
+			return "", fmt.Errorf("member Coalesce: %v", err)
+		}
+		fmt.Fprintf(&b, "/-- `Coalesce`: what the loop ranges over, and its body (action \"store\" =\n`r.latestEvents[<member>.Name] = coalesceEvent{Type: <event>.Type, Member: &<member>}`) -/\n")
+		fmt.Fprintf(&b, "def memberCoalesceRange : String := %q\ndef memberCoalesceBody : Prog := %s\n\n", hdr, body)
 	}
-	if guard == nil {
-		return "", fmt.Errorf("member Flush: suppression guard not found")
+
+	// Flush: statements around the loop over latestEvents (text), the loop body (program)
+	{
+		en := newClEnv(mfl)
+		var top []string
+		var loop *ast.RangeStmt
+		var loopEnv *clEnv
+		for _, s := range mfl.Body.List {
+			if r, ok := s.(*ast.RangeStmt); ok {
+				x, err := en.term(r.X)
+				if err != nil {
+					return "", err
+				}
+				if x == "r.latestEvents" {
+					if loop != nil {
+						return "", fmt.Errorf("member Flush: two loops over latestEvents")
+					}
+					loop = r
+					loopEnv = en.fork()
+					if _, err := loopEnv.rangeHeader(r); err != nil {
+						return "", err
+					}
+					top = append(top, "range r.latestEvents { BODY }")
+					continue
+				}
+			}
+			t, err := en.stmt(s)
+			if err != nil {
+				return "", fmt.Errorf("member Flush: %v", err)
+			}
+			top = append(top, t)
+		}
+		if loop == nil {
+			return "", fmt.Errorf("member Flush: no loop over latestEvents")
+		}
+		rec := func(e *clEnv, l []ast.Stmt) (string, int) {
+			if t, err := e.fork().stmt(l[0]); err == nil && t == "r.lastEvents[#k(r.latestEvents)] = r.latestEvents[*].Type" {
+				return "recordLast", 1
+			}
+			// the grouping: look up / create the event of this kind, append the member
+			if len(l) >= 3 {
+				if as0, ok := l[0].(*ast.AssignStmt); ok && as0.Tok == token.DEFINE && len(as0.Rhs) == 1 {
+					e2 := e.fork()
+					k, err0 := e2.term(as0.Rhs[0])
+					s0, err1 := e2.stmt(l[0])
+					s1, err2 := e2.stmt(l[1])
+					s2, err3 := e2.stmt(l[2])
+					const ty = "r.latestEvents[*].Type"
+					if err0 == nil && err1 == nil && err2 == nil && err3 == nil && s0 == "" &&
+						strings.HasSuffix(k, "["+ty+"]") && !strings.Contains(strings.TrimSuffix(k, "["+ty+"]"), "[") &&
+						s1 == "if !"+k+"#ok { "+k+" = &MemberEvent{Type: "+ty+"}; "+k+" = "+k+" }" &&
+						s2 == k+".Members = append("+k+".Members, *r.latestEvents[*].Member)" {
+						return "addToEvent", 3
+					}
+				}
+			}
+			return "", 0
+		}
+		body, err := loopEnv.prog(loop.Body.List, rec)
+		if err != nil {
+			return "", fmt.Errorf("member Flush loop: %v", err)
+		}
+		fmt.Fprintf(&b, "def memberFlushStmts : List String := %s\n", clStrList(top))
+		fmt.Fprintf(&b, "/-- body of the loop over `latestEvents` in `Flush` (actions: \"recordLast\" =\n`r.lastEvents[<name>] = <pending>.Type`; \"addToEvent\" = find or create the MemberEvent of that kind and append the member) -/\n")
+		fmt.Fprintf(&b, "def memberFlushBody : Prog := %s\n\n", body)
 	}
-	cond, err := clCond(guard.Cond)
-	if err != nil {
-		return "", fmt.Errorf("member Flush guard: %v", err)
-	}
-	fmt.Fprintf(&b, "/-- `if <memberSuppressCond> { continue }` in the loop of `Flush` -/\ndef memberSuppressCond : Cond := %s\n", cond)
-	fmt.Fprintf(&b, "def memberFlushLoopBody : List String := %s\n\n", clStrList(body))
 
 	// ---------------------------------------------------------------- coalesce_user.go
 	_, uf, err := parseFile(repo + "/serf/coalesce_user.go")
@@ -264,65 +769,64 @@ func genCoalescers(repo string) (string, error) {
 	if uh == nil || uc == nil || ufl == nil {
 		return "", fmt.Errorf("userEventCoalescer: Handle/Coalesce/Flush not found")
 	}
-	fmt.Fprintf(&b, "def userHandleStmts : List String := %s\n", clStrList(clStmts(uh.Body.List)))
-	// Coalesce: prologue (two definitions), then if-statements = the decision program
-	var prologue []string
-	var prog []string
-	for _, s := range uc.Body.List {
-		is, ok := s.(*ast.IfStmt)
-		if !ok {
-			if len(prog) > 0 {
-				return "", fmt.Errorf("user Coalesce: statement after the guards: %s", clNorm(s))
-			}
-			prologue = append(prologue, clNorm(s))
-			continue
-		}
-		if is.Init != nil || is.Else != nil {
-			return "", fmt.Errorf("user Coalesce: if with init/else")
-		}
-		c, err := clCond(is.Cond)
-		if err != nil {
-			return "", fmt.Errorf("user Coalesce guard: %v", err)
-		}
-		stm := clStmts(is.Body.List)
-		returns := false
-		if n := len(stm); n > 0 && stm[n-1] == "return" {
-			returns = true
-			stm = stm[:n-1]
-		}
-		var action string
-		switch strings.Join(stm, " ; ") {
-		case "latest = &latestUserEvents{LTime: user.LTime, Events: []Event{e}} ; c.events[user.Name] = latest":
-			action = ".fresh"
-		case "latest.Events = append(latest.Events, e)":
-			action = ".append"
-		default:
-			return "", fmt.Errorf("user Coalesce: unknown action {%s}", strings.Join(stm, " ; "))
-		}
-		prog = append(prog, fmt.Sprintf("(%s, %s, %v)", c, action, returns))
+	p, err = newClEnv(uh).prog(uh.Body.List, nil)
+	if err != nil {
+		return "", fmt.Errorf("user Handle: %v", err)
 	}
-	fmt.Fprintf(&b, "def userCoalescePrologue : List String := %s\n", clStrList(prologue))
-	fmt.Fprintf(&b, "/-- `Coalesce` as (guard, action, returns) in source order -/\ndef userCoalesceProg : List (Cond × UAction × Bool) := [%s]\n", strings.Join(prog, ",\n  "))
-	fmt.Fprintf(&b, "def userFlushStmts : List String := %s\n\n", clStrList(func() []string {
-		var out []string
-		var walk func(l []ast.Stmt, depth string)
-		walk = func(l []ast.Stmt, depth string) {
-			for _, s := range l {
-				if r, ok := s.(*ast.RangeStmt); ok {
-					hdr := depth + "for " + clNorm(r.Key)
-					if r.Value != nil {
-						hdr += ", " + clNorm(r.Value)
-					}
-					out = append(out, hdr+" := range "+clNorm(r.X))
-					walk(r.Body.List, depth+"  ")
-					continue
-				}
-				out = append(out, depth+clNorm(s))
+	fmt.Fprintf(&b, "/-- `userEventCoalescer.Handle` as a program -/\ndef userHandleProg : Prog := %s\n\n", p)
+	{
+		const key = "r.events[p0.(UserEvent).Name]"
+		const fresh = "&latestUserEvents{LTime: p0.(UserEvent).LTime, Events: []Event{p0}}"
+		rec := func(e *clEnv, l []ast.Stmt) (string, int) {
+			as, ok := l[0].(*ast.AssignStmt)
+			if !ok || len(as.Lhs) != 1 || len(as.Rhs) != 1 {
+				return "", 0
 			}
+			rhs, err := e.term(as.Rhs[0])
+			if err != nil {
+				return "", 0
+			}
+			// one statement: r.events[name] = &latestUserEvents{…}
+			if as.Tok == token.ASSIGN {
+				if _, isIdx := as.Lhs[0].(*ast.IndexExpr); isIdx {
+					if lhs, err := e.term(as.Lhs[0]); err == nil && lhs == key && rhs == fresh {
+						return "fresh", 1
+					}
+				}
+			}
+			// two statements: x = &latestUserEvents{…} (or x := …); r.events[name] = x
+			if id, isId := as.Lhs[0].(*ast.Ident); isId && rhs == fresh && len(l) >= 2 {
+				if s2, ok := l[1].(*ast.AssignStmt); ok && s2.Tok == token.ASSIGN && len(s2.Lhs) == 1 && len(s2.Rhs) == 1 {
+					if _, isIdx := s2.Lhs[0].(*ast.IndexExpr); isIdx {
+						lhs2, e1 := e.term(s2.Lhs[0])
+						if r2, isId2 := s2.Rhs[0].(*ast.Ident); isId2 && e1 == nil && lhs2 == key && r2.Name == id.Name {
+							return "fresh", 2
+						}
+					}
+				}
+			}
+			// append: <entry>.Events = append(<entry>.Events, p0)
+			if as.Tok == token.ASSIGN {
+				if lhs, err := e.term(as.Lhs[0]); err == nil && lhs == key+".Events" && rhs == "append("+key+".Events, p0)" {
+					return "append", 1
+				}
+			}
+			return "", 0
 		}
-		walk(ufl.Body.List, "")
-		return out
-	}()))
+		p, err := newClEnv(uc).prog(uc.Body.List, rec)
+		if err != nil {
+			return "", fmt.Errorf("user Coalesce: %v", err)
+		}
+		fmt.Fprintf(&b, "/-- `userEventCoalescer.Coalesce` as a program (actions: \"fresh\" = store a new entry\n`&latestUserEvents{LTime: <event>.LTime, Events: []Event{<event>}}` under the event's name;\n\"append\" = append the event to the entry's Events) -/\ndef userCoalesceProg : Prog := %s\n\n", p)
+	}
+	{
+		en := newClEnv(ufl)
+		ss, err := en.stmts(ufl.Body.List)
+		if err != nil {
+			return "", fmt.Errorf("user Flush: %v", err)
+		}
+		fmt.Fprintf(&b, "def userFlushStmts : List String := %s\n\n", clStrList(ss))
+	}
 
 	// ---------------------------------------------------------------- coalesce.go
 	_, lf, err := parseFile(repo + "/serf/coalesce.go")
@@ -333,10 +837,10 @@ func genCoalescers(repo string) (string, error) {
 	if loop == nil {
 		return "", fmt.Errorf("coalesceLoop not found")
 	}
-	var ingest, flush []string
+	en := newClEnv(loop)
+	var pre, ingest, flush []string
 	var sel *ast.SelectStmt
 	mode := "pre"
-	var pre []string
 	for _, s := range loop.Body.List {
 		if ls, ok := s.(*ast.LabeledStmt); ok {
 			switch ls.Label.Name {
@@ -349,47 +853,89 @@ func genCoalescers(repo string) (string, error) {
 			}
 			s = ls.Stmt
 		}
+		if fs, ok := s.(*ast.ForStmt); ok && mode == "ingest" {
+			if fs.Init != nil || fs.Cond != nil || fs.Post != nil || len(fs.Body.List) != 1 {
+				return "", fmt.Errorf("coalesceLoop: ingest loop shape")
+			}
+			ss, ok := fs.Body.List[0].(*ast.SelectStmt)
+			if !ok || sel != nil {
+				return "", fmt.Errorf("coalesceLoop: expected one select in the ingest loop")
+			}
+			sel = ss
+			ingest = append(ingest, "for { select }")
+			continue
+		}
+		t, err := en.stmt(s)
+		if err != nil {
+			return "", fmt.Errorf("coalesceLoop: %v", err)
+		}
 		switch mode {
 		case "pre":
-			pre = append(pre, clNorm(s))
+			pre = append(pre, t)
 		case "ingest":
-			if fs, ok := s.(*ast.ForStmt); ok {
-				if fs.Init != nil || fs.Cond != nil || fs.Post != nil || len(fs.Body.List) != 1 {
-					return "", fmt.Errorf("coalesceLoop: ingest loop shape")
-				}
-				ss, ok := fs.Body.List[0].(*ast.SelectStmt)
-				if !ok || sel != nil {
-					return "", fmt.Errorf("coalesceLoop: expected one select in the ingest loop")
-				}
-				sel = ss
-				ingest = append(ingest, "for { select }")
-				continue
-			}
-			ingest = append(ingest, clNorm(s))
+			ingest = append(ingest, t)
 		case "flush":
-			flush = append(flush, clNorm(s))
+			flush = append(flush, t)
 		}
 	}
 	if sel == nil {
 		return "", fmt.Errorf("coalesceLoop: select not found")
 	}
+	var cases []string
+	evProg := ""
+	for _, c := range sel.Body.List {
+		cc := c.(*ast.CommClause)
+		ce := en.fork()
+		comm := "default"
+		if cc.Comm != nil {
+			comm, err = ce.stmt(cc.Comm)
+			if err != nil {
+				return "", fmt.Errorf("coalesceLoop: %v", err)
+			}
+		}
+		if comm == "v3 := <-p0" {
+			// the event case is logic: translate it (actions are its four primitive statements)
+			rec := func(e *clEnv, l []ast.Stmt) (string, int) {
+				t, err := e.stmt(l[0])
+				if err != nil {
+					return "", 0
+				}
+				switch t {
+				case "p1 <- v3":
+					return "forward", 1
+				case "if v1 == nil { v1 = time.After(p3) }":
+					return "armQuantumIfIdle", 1
+				case "v0 = time.After(p4)":
+					return "rearmQuiescent", 1
+				case "p5.Coalesce(v3)":
+					return "coalesce", 1
+				}
+				return "", 0
+			}
+			evProg, err = ce.fork().prog(cc.Body, rec)
+			if err != nil {
+				return "", fmt.Errorf("coalesceLoop event case: %v", err)
+			}
+			cases = append(cases, fmt.Sprintf("  (%q, [\"EVENT\"])", comm))
+			continue
+		}
+		ss, err := ce.stmts(cc.Body)
+		if err != nil {
+			return "", fmt.Errorf("coalesceLoop: %v", err)
+		}
+		cases = append(cases, fmt.Sprintf("  (%q, %s)", comm, clStrList(ss)))
+	}
+	fmt.Fprintf(&b, "-- coalesceLoop: %s\n", clLegend(en))
+	if evProg == "" {
+		return "", fmt.Errorf("coalesceLoop: no case receiving from the input channel")
+	}
+	fmt.Fprintf(&b, "/-- the case `e := <-inCh` of the select as a program (actions: \"forward\" = `outCh <- e`;\n\"armQuantumIfIdle\" = `if quantum == nil { quantum = time.After(coalescePeriod) }`; \"rearmQuiescent\" =\n`quiescent = time.After(quiescentPeriod)`; \"coalesce\" = `c.Coalesce(e)`) -/\ndef loopEventProg : Prog := %s\n", evProg)
 	fmt.Fprintf(&b, "def loopPrologue : List String := %s\n", clStrList(pre))
 	fmt.Fprintf(&b, "def loopIngest : List String := %s\n", clStrList(ingest))
 	fmt.Fprintf(&b, "def loopFlush : List String := %s\n", clStrList(flush))
 	b.WriteString("/-- the cases of the select: (communication, statements) -/\ndef loopCases : List (String × List String) := [\n")
-	for i, c := range sel.Body.List {
-		cc := c.(*ast.CommClause)
-		comm := "default"
-		if cc.Comm != nil {
-			comm = clNorm(cc.Comm)
-		}
-		sep := ","
-		if i == len(sel.Body.List)-1 {
-			sep = ""
-		}
-		fmt.Fprintf(&b, "  (%q, %s)%s\n", comm, clStrList(clStmts(cc.Body)), sep)
-	}
-	b.WriteString("]\n\nend SerfModel.Gen.Coalescers\n")
+	b.WriteString(strings.Join(cases, ",\n"))
+	b.WriteString("\n]\n\nend SerfModel.Gen.Coalescers\n")
 	return b.String(), nil
 }
 
